@@ -3,9 +3,12 @@ package vh
 // C14 Live project update converges to the new config with minimal disturbance.
 
 import (
+	"bytes"
 	"encoding/json"
 	"fmt"
+	"github.com/f1bonacc1/process-compose/src/api"
 	"github.com/f1bonacc1/process-compose/src/types"
+	"net/http/httptest"
 	"sort"
 	"strings"
 	"time"
@@ -365,6 +368,57 @@ func c14Scenarios(tier string) []*Scenario {
 	// the same update sent again changes nothing
 	mk("same,same,+c-disabled", []map[string]string{{"a": "same", "b": "same", "c": "added-disabled"}}, init)
 	mk("seq:+c-disabled;same", []map[string]string{{"c": "added-disabled"}, {}}, init)
+	// the same, through the REST route itself (POST /project), for a project with a replicated process (its
+	// configuration keys b-0 / b-1 differ from its name)
+	{
+		init := map[string]c14Proc{"a": c14Base(), "b": c14Base()}
+		y := strings.Replace(c14Project(init), "  b:\n", "  b:\n    replicas: 2\n", 1)
+		sc := &Scenario{ID: "c14-rest:same-with-replicas", YAML: y, K: 0, EnvCost: 1, Horizon: 100 * time.Second,
+			Procs: map[string]*ProcScript{"d": {Launches: exits(0)}, "a": {}, "b": {}}}
+		ready := func(w *World) bool {
+			alive := 0
+			for _, f := range w.procs {
+				if f.Alive() && f.Name != "d" {
+					alive++
+				}
+			}
+			return alive == 3 && w.launches["d#0"] > 0
+		}
+		sc.API = [][]APICall{{{Op: "fn", Name: "post-project", When: ready, Fn: func(w *World) (string, error) {
+			p, err := w.LoadYAML("same.yaml", y)
+			if err != nil {
+				return "", err
+			}
+			enc, err := json.Marshal(p)
+			if err != nil {
+				return "", err
+			}
+			engine := api.InitRoutes(false, api.NewPcApi(w.Runner))
+			req := httptest.NewRequest("POST", "/project", bytes.NewReader(enc))
+			req.Header.Set("Content-Type", "application/json")
+			rec := httptest.NewRecorder()
+			engine.ServeHTTP(rec, req)
+			return fmt.Sprintf("%d %s", rec.Code, strings.TrimSpace(rec.Body.String())), nil
+		}}}}
+		sc.Check = func(w *World) []Violation {
+			var vs []Violation
+			tr := w.pre()
+			if findEvent(tr, 0, func(e Event) bool { return e.Kind == "api-ret" }) < 0 {
+				return nil
+			}
+			if len(w.apiRes) > 0 && w.apiRes[0].Done && w.apiRes[0].Val != "200 {}" {
+				vs = append(vs, viol("C14", "status-map:same-over-rest", "an unchanged project posted to /project is answered with %s", w.apiRes[0].Val))
+			}
+			for _, e := range tr {
+				if (baseOf(e.Proc) == "a" || baseOf(e.Proc) == "b") && (e.Kind == "signal" || e.Kind == "exit") {
+					vs = append(vs, viol("C14", "restarted-unchanged:same-over-rest", "process %s is unchanged by the update but got a %s", e.Proc, e.Kind))
+					break
+				}
+			}
+			return vs
+		}
+		scs = append(scs, sc)
+	}
 	// two successive updates
 	seconds := []string{"same", "removed", "changed:args", "changed:environment"}
 	firsts := []string{"changed:args", "changed:description", "removed"}
